@@ -40,8 +40,8 @@ def make_schedule(p, length):
     return dict(workers=workers, cuts=cuts, order=order, tids=tids, mode=p["mode"] % 2)
 
 
-def run_entry(e, n, a, b, self_masked, rhs_full=False, self_strided=False, arg_strided=False):
-    out, self_elems, arg_elems = evaluate(e, n, a, b, self_masked, rhs_full, self_strided, arg_strided)
+def run_entry(e, n, a, b, self_masked, rhs_full=False, self_strided=False, arg_strided=False, arg_member=False):
+    out, self_elems, arg_elems = evaluate(e, n, a, b, self_masked, rhs_full, self_strided, arg_strided, arg_member)
     tag = e["subject"].partition(":")[0]
     if e["kind"] == "array":
         got = out["result"]
@@ -66,6 +66,7 @@ def interp(p):
     # layout of the subject / the array arguments: member views of aggregate arrays (stride 3 or 2)
     self_strided = bool(p.get("strided", 0) & 1) and tag == "method" and not self_masked and what in STRIDED
     arg_strided = bool(p.get("strided", 0) & 2) and not rhs_full and any(k.startswith("arr:") and k[4:] in STRIDED for k in e["args"])
+    arg_member = bool(p.get("arg_member")) and tag == "method" and not self_masked and not self_strided and not rhs_full
     sched = make_schedule(p["sched"], n)
     where = "%s %s%r n=%d" % (e["subject"], e["name"], tuple(e["args"]), n)
     labels = set()
@@ -76,7 +77,7 @@ def interp(p):
     # (1) no pool
     POOL.remove()
     try:
-        r0, self_elems, arg_elems, out0 = run_entry(e, n, a, b, self_masked, rhs_full, self_strided, arg_strided)
+        r0, self_elems, arg_elems, out0 = run_entry(e, n, a, b, self_masked, rhs_full, self_strided, arg_strided, arg_member)
     except Exception as ex:
         raise Violation("catalogue/entry-raises", "%s raised %r without a pool (it did not on the unchanged tree)" % (where, ex))
     if e["kind"] == "array" and (r0 is None or len(r0) != n):
@@ -86,7 +87,7 @@ def interp(p):
     POOL.schedule(sched["cuts"], sched["order"], sched["tids"], sched["mode"])
     POOL.reset_stats()
     try:
-        r1, _se, _ae, _o = run_entry(e, n, a, b, self_masked, rhs_full, self_strided, arg_strided)
+        r1, _se, _ae, _o = run_entry(e, n, a, b, self_masked, rhs_full, self_strided, arg_strided, arg_member)
     except Exception as ex:
         POOL.remove()
         raise Violation("schedule/raises-under-pool", "%s raised %r under schedule %r" % (where, ex, sched))
@@ -99,6 +100,9 @@ def interp(p):
     for o_ in (out0, _o):
         if o_.get("strided") and not o_.get("neighbours_intact", True):
             raise Violation("strided-subject/neighbouring-members-modified", "%s: the subject is the member view of an aggregate array; the operation changed other members of the parent's elements" % where)
+    if out0.get("member_used"):
+        labels.add("argument_is_member_view_of_subject")
+        where += " [argument = subject.%s]" % out0["member_used"]
     if self_strided:
         labels.add("strided_subject")
     if arg_strided:
@@ -190,7 +194,7 @@ def interp(p):
 
 I = st.integers
 SCHED = st.fixed_dictionaries(dict(cuts=st.lists(I(0, 65536), min_size=0, max_size=7), order_salt=I(0, 10**6), tid_salt=I(0, 10**6), mode=I(0, 1), workers=I(0, 5)))
-PROG = st.fixed_dictionaries(dict(entry=I(0, max(len(CAT) - 1, 0)), len=st.sampled_from([3, 4, 5, 6, 7, 8, 8, 7, 5, 0, 1, 2]), a=I(0, 50), b=I(0, 50), self_masked=st.booleans(), strided=I(0, 3), mismatch=I(0, 3), sched=SCHED))
+PROG = st.fixed_dictionaries(dict(entry=I(0, max(len(CAT) - 1, 0)), len=st.sampled_from([3, 4, 5, 6, 7, 8, 8, 7, 5, 0, 1, 2]), a=I(0, 50), b=I(0, 50), self_masked=st.booleans(), strided=I(0, 3), arg_member=st.booleans(), mismatch=I(0, 3), sched=SCHED))
 
 
 def sweep_items(tier, seed):
@@ -201,7 +205,7 @@ def sweep_items(tier, seed):
         for li in ((2, 5, 7) if tier != "thorough" else (0, 2, 3, 5, 7, 8)):
             for r in range(reps):
                 s = (idx * 31 + li * 7 + r * 13 + seed) % 1000
-                items.append(dict(entry=idx, len=li, a=(s + 1) % 17, b=(s * 3) % 23, self_masked=(s % 3 == 0), strided=(1 + (s // 3) % 3) if (li + r) % 3 == 1 else 0, mismatch=1 + s % 3,
+                items.append(dict(entry=idx, len=li, a=(s + 1) % 17, b=(s * 3) % 23, self_masked=(s % 3 == 0), strided=(1 + (s // 3) % 3) if (li + r) % 3 == 1 else 0, arg_member=((li + r) % 3 == 2), mismatch=1 + s % 3,
                                   sched=dict(cuts=[(s * 977 + 13000 * q) % 65537 for q in range(1 + s % 5)], order_salt=s + 1, tid_salt=s + 2, mode=(s + r) % 2, workers=s % 6)))
     return items
 
@@ -374,7 +378,7 @@ RACE_PASS = bool(os.environ.get("VP_RACE_PASS"))
 GROUPS = [] if RACE_PASS else [
     Group("catalogue_sweep", None, interp, 0, 0,
           "complete sweep: every one of the %d catalogued vectorised entry points (array methods/operators x argument-kind combinations array/scalar/masked, module functions, scalar-object methods taking arrays) x lengths {2, 201, 257} (thorough: {0,2,199,201,257,1000}) x generated schedules; one length per entry (thorough: two) runs with the subject and/or the array arguments laid out as member views of aggregate arrays (V3fArray.y, C3cArray.g, Box3fArray.max: stride 3 or 2), where other members of the parent's elements must stay untouched; non-trivial = length > 200, dispatched to the pool, >= 2 non-empty chunks executed out of order" % len(CAT),
-          required_labels=["dispatched", "concurrent", "scalar_oracle_exact", "mismatch_raises", "method", "func", "scalar", "inplace", "masked_subject", "masked_subject_unmasked_length_rhs", "masked_subject_masked_rhs_unmasked_length", "scalar_fold_oracle", "strided_subject", "strided_argument", "mismatch_empty_raises"], items=sweep_items),
+          required_labels=["dispatched", "concurrent", "scalar_oracle_exact", "mismatch_raises", "method", "func", "scalar", "inplace", "masked_subject", "masked_subject_unmasked_length_rhs", "masked_subject_masked_rhs_unmasked_length", "scalar_fold_oracle", "strided_subject", "strided_argument", "argument_is_member_view_of_subject", "mismatch_empty_raises"], items=sweep_items),
     Group("schedules", PROG, interp, 2400, 40000,
           "random (entry, length in {0,1,2,199,200,201,202,257,1000}, data seeds, masked self, schedule: up to 8 chunks incl. empty ones, permutation, worker ids, serial/concurrent); non-trivial as above",
           required_labels=["dispatched"]),
